@@ -31,6 +31,9 @@ def fam_branches():
         out.append((f"br_val_{k}", _loop(f"va = d0.Setting\nvb = va {op} {c}\nd1.Setting = vb + 2")))
         out.append((f"br_ifexp_{k}", _loop(f"va = d0.Setting\nd1.Setting = 7 if va {op} {c} else va")))
         out.append((f"br_nested_{k}", _loop(f"va = d0.Setting\nvb = d1.Setting\nif va {op} 1:\n    if vb {op} 0:\n        d2.Setting = 1\n    else:\n        d2.Setting = 2\nelse:\n    d2.Setting = 3")))
+    rem = "  # a long trailing remark, long enough that no emitted line has room left for the version note at its end"
+    out.append(("br_long_remarks", HEADER + "while True:" + rem + "\n    va = d0.Setting" + rem + "\n    if va > 1:" + rem + "\n        d1.Setting = va + 1" + rem
+                + "\n    else:" + rem + "\n        d1.Setting = va - 1" + rem + "\n    d2.On = va" + rem + "\n    yield_()" + rem + "\n"))
     out.append(("br_name_test", _loop("va = d0.Setting\nif va:\n    d1.On = 1\nelse:\n    d1.On = 0")))
     out.append(("br_attr_test", _loop("if d0.On:\n    d1.On = 1\nelse:\n    d1.On = 0")))
     out.append(("br_and", _loop("va = d0.Setting\nvb = d1.Setting\nif va > 0 and vb > 0:\n    d2.On = 1\nelse:\n    d2.On = 0")))
@@ -119,6 +122,9 @@ def fam_access():
     out.append(("ac_stack_own", _loop("stack[10] = d0.Setting\nvb = stack[10]\nd1.Setting = vb + 1")))
     out.append(("ac_hash", _loop('d0.Setting = HASH("abc")\nd1.Setting = d0.PrefabHash == HASH("StructureWallHeater")')))
     out.append(("ac_math", _loop("va = d0.Setting\nd1.Setting = max(va, 1) + min(va, 0) + abs(va) + floor(va / 2)")))
+    out.append(("ac_refid_device", HEADER + "lamp = WallLight(ref_id=d2.Setting)\nwhile True:\n    va = d0.Setting * 2 + 1\n    vb = va * va + 3\n    lamp.On = vb > va\n    d1.Setting = vb - va\n    yield_()\n"))
+    out.append(("ac_refid_stack", HEADER + "sid = Autolathes.Minimum.ReferenceId\nstz = Stack(ref_id=sid)\nwhile True:\n    va = d0.Setting * 2 + 1\n    vb = va * va + 3\n    stz[0] = vb + va\n    d1.Setting = stz[1] + vb\n    yield_()\n"))
+    out.append(("ac_refid_in_function", HEADER + "def feed(xa):\n    rid = Autolathes.Minimum.ReferenceId\n    stz = Stack(ref_id=rid)\n    va = xa * 2 + 1\n    vb = va * va + 3\n    stz[0] = vb + va\n    return vb\nwhile True:\n    d1.Setting = feed(d0.Setting) + feed(1)\n    yield_()\n"))
     out.append(("ac_sleep", HEADER + "while True:\n    d1.Setting = d0.Setting\n    sleep(2)\n"))
     return out
 
